@@ -99,3 +99,56 @@ Example c13_plain_nonvacuous :
   can_redirect [[101;120;46;99;111]] 0 false
     (plain_split (https_pfx ++ [97;46;101;120;46;99;111] ++ [58;52;52;51] ++ [47;99;98])) = true.
 Proof. vm_compute. reflexivity. Qed.
+
+(* ---- the client AS CONFIGURED (configured_domains = the allowed_redirect_domains strings of the configuration
+   file, byte for byte; rc_public = no secret): for EVERY client kind an allowed redirect is https, has a host,
+   no query, no "..", and its host is one of the CONFIGURED strings or a dot-boundary subdomain of one *)
+Theorem c13_decision_as_configured : forall c pats parse,
+  can_redirect_c c pats parse = Some true ->
+  (exists u, parse = Some u /\ scheme u = https /\ opaque u = false /\ uhost u <> [] /\
+    rawquery u = [] /\ has_dotdot (upath u) = false /\
+    (configured_domains c <> [] -> exists d, In d (configured_domains c) /\ dom_spec (hostname u) d)) /\
+  (pats <> [] -> exists pre post, pats = pre ++ PMatch :: post /\ Forall (fun x => x = PNoMatch) pre) /\
+  (configured_domains c = [] -> pats <> []).
+Proof. exact can_redirect_c_sound. Qed.
+Print Assumptions c13_decision_as_configured.
+
+Theorem c13_cors_as_configured : forall c parse,
+  cors_allowed_c c parse = true ->
+  exists u, parse = Some u /\ scheme u = https /\
+    exists d, In d (configured_domains c) /\ dom_spec (hostname u) d.
+Proof. exact cors_c_sound. Qed.
+Print Assumptions c13_cors_as_configured.
+
+(* two clients with the same configured entries decide alike, whatever their kind (public or with a secret) and
+   whatever the values of their other options *)
+Theorem c13_client_kind_irrelevant : forall c1 c2 pats parse,
+  configured_domains c1 = configured_domains c2 ->
+  can_redirect_c c1 pats parse = can_redirect_c c2 pats parse /\
+  cors_allowed_c c1 parse = cors_allowed_c c2 parse.
+Proof. exact client_kind_irrelevant. Qed.
+Print Assumptions c13_client_kind_irrelevant.
+
+(* an entry in a form no host name takes (it contains a byte the host does not: "https://x/", "*.x", " x ",
+   "X" against a lower-case host) matches nothing — it never widens *)
+Theorem c13_odd_entry_matches_nothing : forall host d c,
+  In c d -> ~ In c host -> host_matches host d = false.
+Proof. exact odd_entry_matches_nothing. Qed.
+Print Assumptions c13_odd_entry_matches_nothing.
+
+Theorem c13_trimset_loader_refuted : exists c pats u,
+  can_redirect_c_trimset c pats (Some u) = Some true /\ can_redirect_c c pats (Some u) = Some false /\
+  forall d, In d (configured_domains c) -> host_matches (hostname u) d = false.
+Proof. exact trimset_loader_refuted. Qed.
+Print Assumptions c13_trimset_loader_refuted.
+
+Theorem c13_loopback_prefix_refuted : exists c pats u,
+  can_redirect_c_loopback c pats (Some u) = Some true /\ can_redirect_c c pats (Some u) = Some false /\
+  scheme u <> https.
+Proof. exact loopback_prefix_refuted. Qed.
+Print Assumptions c13_loopback_prefix_refuted.
+
+Example c13_public_client_nonvacuous :
+  can_redirect_c {| rc_public := true; rc_options := []; configured_domains := [[101;120;46;99;111]] |} []
+    (plain_split (https_pfx ++ [97;46;101;120;46;99;111] ++ [47;99;98])) = Some true.
+Proof. vm_compute. reflexivity. Qed.
